@@ -94,7 +94,12 @@ def check_decl(ctx, rng, flag, base, idx):
     size, signed = ALL_INTS[base]
     text, name, members = decl(rng, flag, base, idx)
     other_text, other_name, other_members = decl(rng, flag, base, idx + 10000)
-    full = text + "\n" + other_text + f"\nstruct S {{ uint8 lead; {name} e; {name} arr[3]; uint8 tail; }};\n"
+    # a declaration of the other kind (flag for an enum, enum for a flag): its members are never equal either
+    xbase = base if not signed else {1: "uint8", 2: "uint16", 3: "uint24", 4: "uint32", 6: "uint48", 8: "uint64",
+                                     16: "uint128"}[size]
+    cross_text, cross_name, cross_members = decl(rng, not flag, xbase, idx + 20000)
+    full = text + "\n" + other_text + "\n" + cross_text + \
+        f"\nstruct S {{ uint8 lead; {name} e; {name} arr[3]; uint8 tail; }};\n"
     bitw = min(size * 8, max(v for _, v in members).bit_length() + 1) or 1
     if size * 8 - bitw > 0:
         full += f"struct B {{ {name} x : {bitw}; {base} rest : {size * 8 - bitw}; uint8 tail; }};\n"
@@ -162,6 +167,12 @@ def check_decl(ctx, rng, flag, base, idx):
                     viol("member-not-equal-to-its-integer-value")
                 if not (a == b and hash(a) == hash(b) and a == s.e and hash(a) == hash(s.e) and not (a != b)):
                     viol("two-parses-of-one-value-unequal-or-hash-differently")
+                # however the value was read (scalar, array entry, field, array field) it is the same object kind:
+                # equal, same hash, same name (a member stays that member, also the zero-valued one)
+                odd = [i for i, o in enumerate(objs) if not (o == a and hash(o) == hash(a) and o.name == a.name)]
+                if odd:
+                    viol("array-entry-or-field-differs-from-scalar-parse-in-hash-or-name", which=odd,
+                         names=[repr(o.name) for o in objs])
                 for mname, mv in members:
                     if mv == v and not (a == E[mname]):
                         viol("not-equal-to-same-class-member-with-that-value", member=mname)
@@ -174,6 +185,15 @@ def check_decl(ctx, rng, flag, base, idx):
                 for oname, ov in other_members:
                     if ov == v and (a == O[oname] or O[oname] == a):
                         viol("equal-to-a-member-of-another-enum", member=oname)
+                if v >= 0:
+                    X = getattr(cs, cross_name)
+                    try:
+                        x = X(v)
+                        ctx.event("cross_kind_comparisons")
+                        if a == x or x == a or not (a != x):
+                            viol("equal-to-a-member-of-another-enum:enum-vs-flag", other=repr(x))
+                    except Exception:  # noqa: BLE001
+                        pass
                 # bit-field
                 if has_b and 0 <= v < (1 << bitw):
                     unit = v if endian == "<" else v << (size * 8 - bitw)
